@@ -1,24 +1,140 @@
 package main
 
 import (
+	"flag"
 	"fmt"
 	"os"
-
-	"golang.org/x/tools/go/packages"
-	"golang.org/x/tools/go/ssa"
-	"golang.org/x/tools/go/ssa/ssautil"
+	"regexp"
+	"sort"
+	"strings"
+	"time"
 )
 
 func main() {
-	cfg := &packages.Config{Mode: packages.LoadAllSyntax, Dir: "/repo", BuildFlags: []string{"-tags=verif"}}
-	pkgs, err := packages.Load(cfg, "./...")
+	if len(os.Args) < 2 {
+		fmt.Fprintln(os.Stderr, "usage: govc <verify|check|sweep|baseline|selftest> [flags]")
+		os.Exit(2)
+	}
+	cmd := os.Args[1]
+	fs := flag.NewFlagSet(cmd, flag.ExitOnError)
+	repo := fs.String("repo", "/repo", "repository working tree")
+	verif := fs.String("verif", "/verif", "verification directory")
+	fnRe := fs.String("func", "", "regexp on function keys")
+	prop := fs.String("property", "", "property id")
+	tier := fs.String("tier", "quick", "quick|thorough")
+	timeout := fs.Int("timeout", 0, "solver timeout (s)")
+	dump := fs.Bool("dump", false, "keep and print query paths")
+	verbose := fs.Bool("v", false, "verbose")
+	obRe := fs.String("ob", "", "regexp on obligation names")
+	fs.Parse(os.Args[2:])
+
+	switch cmd {
+	case "verify":
+		os.Exit(cmdVerify(*repo, *verif, *fnRe, *obRe, *timeout, *dump, *verbose))
+	case "check":
+		os.Exit(cmdCheck(*repo, *verif, *prop, *tier, *timeout, *verbose))
+	case "baseline":
+		os.Exit(cmdBaseline(*repo, *verif, *timeout))
+	case "sweep":
+		os.Exit(cmdSweep(*repo, *verif, *fnRe, *timeout, *verbose))
+	default:
+		fmt.Fprintln(os.Stderr, "unknown command", cmd)
+		os.Exit(2)
+	}
+}
+
+func scratchDir() string {
+	d, err := os.MkdirTemp("", "govc-")
 	if err != nil {
 		panic(err)
 	}
-	prog, spkgs := ssautil.AllPackages(pkgs, ssa.NaiveForm|ssa.GlobalDebug)
-	prog.Build()
-	for _, p := range spkgs {
-		fmt.Println(p.Pkg.Path(), len(p.Members))
+	return d
+}
+
+// cmdVerify: development command: verify functions under contract matching a regexp and print results.
+func cmdVerify(repo, verif, fnRe, obRe string, timeout int, dump, verbose bool) int {
+	t0 := time.Now()
+	e, err := loadEngine(repo, verif+"/spec")
+	if err != nil {
+		fmt.Fprintln(os.Stderr, "load:", err)
+		return 2
 	}
-	_ = os.Args
+	re := regexp.MustCompile(fnRe)
+	var ore *regexp.Regexp
+	if obRe != "" {
+		ore = regexp.MustCompile(obRe)
+	}
+	var keys []string
+	for k := range e.cs.Funcs {
+		keys = append(keys, k)
+	}
+	sort.Strings(keys)
+	var ctxs []*Ctx
+	var obs []*Obligation
+	for _, k := range keys {
+		if !re.MatchString(k) {
+			continue
+		}
+		fc := e.cs.Funcs[k]
+		fn := e.funcs[k]
+		if fn == nil {
+			if !fc.NoBody && !fc.Trusted {
+				fmt.Printf("UNBOUND contract %s (%s): no such function\n", k, fc.Where)
+			}
+			continue
+		}
+		if fc.Trusted || fc.NoBody {
+			continue
+		}
+		c := e.verifyFunction(fn, fc)
+		ctxs = append(ctxs, c)
+		for _, er := range c.errs {
+			fmt.Printf("ENGINE %s: %s\n", k, er)
+		}
+		for _, ob := range c.obs {
+			if ore != nil && !ore.MatchString(ob.Name) {
+				continue
+			}
+			obs = append(obs, ob)
+		}
+	}
+	if timeout == 0 {
+		timeout = 10
+	}
+	dir := scratchDir()
+	if !dump {
+		defer os.RemoveAll(dir)
+	}
+	fmt.Printf("generated %d obligations for %d functions in %.1fs\n", len(obs), len(ctxs), time.Since(t0).Seconds())
+	solveAll(e, ctxs, obs, solveOpts{timeout: timeout, dir: dir, models: true})
+	bad := 0
+	for _, ob := range obs {
+		status := "ok  "
+		if !ob.ok() {
+			status = "FAIL"
+			bad++
+		}
+		if verbose || !ob.ok() {
+			fmt.Printf("%s %-8s %-7s %5.2fs %s\n", status, ob.Result, ob.Solver, ob.TimeS, ob.Name)
+			if !ob.ok() {
+				if ob.Clause != "" {
+					fmt.Printf("       clause: %s (%s)\n", ob.Clause, ob.Where)
+				}
+				if dump {
+					fmt.Printf("       query: %s\n", ob.File)
+				}
+				if ob.Result == "unbound" {
+					fmt.Printf("       unbound: %s\n", ob.Model)
+				}
+				for s, r := range ob.Raw {
+					fmt.Printf("       %s: %s\n", s, strings.ReplaceAll(r, "\n", " "))
+				}
+			}
+		}
+	}
+	fmt.Printf("%d obligations, %d not discharged, %.1fs\n", len(obs), bad, time.Since(t0).Seconds())
+	if bad > 0 {
+		return 1
+	}
+	return 0
 }
